@@ -183,16 +183,34 @@ def convex_update(ctx, rule, modules, cls, mean_field, acc_field, value_param, a
     ci, fn = prog.resolve(cls, 'register')
     if fn is None:
         raise AnalysisError(f'anchor vanished: {cls}.register')
-    an.cur = [(cls, cls, '<entry>')]
-    # free parameters; remember the atom of the observation value
-    res = an.inline(st, cls, ci.name, fn, [], {}, None, free_params=True)
+    # every method that stores the accumulator (other than the constructor) is held to the same shape: register, and e.g. a merge of another
+    # instance (whose own accumulator is >= 0 by the same argument); a path that sets the accumulator to a constant >= 0 is a reset
+    writers = ['register']
+    for k_ in prog.mro(cls):
+        for mn_, f_ in prog.classes[k_].methods.items():
+            if mn_ not in writers and mn_ != '__init__' and prog.resolve(cls, mn_) and prog.resolve(cls, mn_)[1] is f_ and any(
+                    isinstance(x, ast.Attribute) and isinstance(x.ctx, ast.Store) and x.attr == acc_field and isinstance(x.value, ast.Name)
+                    and x.value.id == 'self' for x in ast.walk(f_)):
+                writers.append(mn_)
     problems = []
     updated = 0
-    for (rs, _ra) in res:
+    res = []
+    for mn_ in writers:
+        ci_w, fn_w = prog.resolve(cls, mn_)
+        st_w = st if mn_ == 'register' else an.instantiate(cls, inv)
+        an.cur = [(cls, cls, '<entry>')]
+        # free parameters; remember the atom of the observation value
+        for (rs, _ra) in an.inline(st_w, cls, ci_w.name, fn_w, [], {}, None, free_params=True):
+            res.append((rs, mn_, st_w.fld.get(mean_field), st_w.fld.get(acc_field)))
+    for (rs, mn_, m0, a0) in res:
         m1 = rs.fld.get(mean_field)
         a1 = rs.fld.get(acc_field)
         if a1 == a0 and m1 == m0:
             continue                        # path that does not accumulate (e.g. zero weight)
+        if mn_ != 'register':
+            da_ = rs.defs.get(a1)
+            if da_ and da_[0] == 'const' and isinstance(da_[1], (int, float)) and da_[1] >= 0:
+                continue                    # a reset
         updated += 1
         ctx.examined()
         # the value atom: whatever the mean step subtracts M0 from
@@ -225,7 +243,7 @@ def convex_update(ctx, rule, modules, cls, mean_field, acc_field, value_param, a
                                 c_ok = True
                         why = 'step factor is not proved to lie in [0, 1]'
         if not c_ok:
-            problems.append(why)
+            problems.append(why + (f' (in {mn_})' if mn_ != 'register' else ''))
             continue
         da = rs.defs.get(a1)
         inc = None
@@ -234,13 +252,32 @@ def convex_update(ctx, rule, modules, cls, mean_field, acc_field, value_param, a
         if inc is None:
             problems.append(f'accumulator is set to `{_show(rs, a1)}`, not incremented')
             continue
-        factors = []
-        _flatten_mul(rs, inc, factors)
-        f_old = [f for f in factors if _is_sub_of(rs, f, x, m0)]
-        f_new = [f for f in factors if _is_sub_of(rs, f, x, m1)]
-        rest = [f for f in factors if f not in f_old[:1] + f_new[:1]]
-        if len(f_old) < 1 or len(f_new) < 1 or not all(rs.iv(f).ge0() and not rs.iv(f).nan for f in rest):
-            problems.append('accumulator increment is not k*(x - old_mean)*(x - new_mean) with k >= 0')
+        # the increment is a sum of terms: products k*(x-old)*(x-new) with k >= 0 (at least one), and terms that are >= 0 by themselves (a
+        # constant, the accumulator of another instance)
+        terms = []
+
+        def _flatten_add(atom):
+            d_ = rs.defs.get(atom)
+            if d_ and d_[0] == 'add':
+                _flatten_add(d_[1]); _flatten_add(d_[2])
+            else:
+                terms.append(atom)
+        _flatten_add(inc)
+        n_prod, bad_term = 0, False
+        for t_ in terms:
+            factors = []
+            _flatten_mul(rs, t_, factors)
+            f_old = [f for f in factors if _is_sub_of(rs, f, x, m0)]
+            f_new = [f for f in factors if _is_sub_of(rs, f, x, m1)]
+            rest = [f for f in factors if f not in f_old[:1] + f_new[:1]]
+            if len(f_old) >= 1 and len(f_new) >= 1 and all(rs.iv(f).ge0() and not rs.iv(f).nan for f in rest):
+                n_prod += 1
+            elif rs.iv(t_).ge0() and not rs.iv(t_).nan and len(terms) > 1:
+                pass
+            else:
+                bad_term = True
+        if n_prod < 1 or bad_term:
+            problems.append('accumulator increment is not k*(x - old_mean)*(x - new_mean) with k >= 0' + (f' (in {mn_})' if mn_ != 'register' else ''))
     ok = updated > 0 and not problems
     ctx.ob(rule, f'{cls}.register:{acc_field}', ok,
            sample=f'{cls}.register: {updated} accumulating path(s); mean step convex and {acc_field} += k*(x-old)*(x-new): {ok}')
